@@ -130,28 +130,32 @@ theorem serialize_inline_runs_ops (s : Ser) (id : Nat) (pieces : List Bytes) (fa
     (hm : s.mode = .file) (hf : s.fork = false) (hp : s.pid = .idle) :
     (s.serialize id pieces fail).1.fs = s.fs.run (serializeOps pieces fail) ∧
     (s.serialize id pieces fail).1.pid = (if fail then .doneFail else .doneOk) := by
+  refine ⟨serialize_inline_fs s id pieces fail hm hf hp, ?_⟩
   simp [Ser.serialize, hm, hf, hp]
 
-/-- … fork mode hands exactly them to the child and leaves the parent's files alone … -/
+/-- … fork mode performs the first of them (a left-over `<dump>.tmp` is removed, D84) in the calling process and hands
+the rest to the child … -/
 theorem serialize_fork_hands_ops (s : Ser) (id : Nat) (pieces : List Bytes) (fail : Bool)
     (hm : s.mode = .file) (hf : s.fork = true) (hp : s.pid = .idle) :
-    (s.serialize id pieces fail).1.fs = s.fs ∧
-    (s.serialize id pieces fail).1.child = some ⟨serializeOps pieces fail, !fail⟩ ∧
+    (s.serialize id pieces fail).1.fs = s.fs.apply (.remove .tmp) ∧
+    (s.serialize id pieces fail).1.child = some ⟨dumpWriteOps pieces fail, !fail⟩ ∧
+    serializeOps pieces fail = .remove .tmp :: dumpWriteOps pieces fail ∧
     (s.serialize id pieces fail).1.pid = .child := by
-  simp [Ser.serialize, hm, hf, hp]
+  simp [Ser.serialize, hm, hf, hp, serializeOps]
 
 /-- … and a complete successful write leaves exactly the image (and no tmp file). -/
 theorem dump_complete_is_image (fs : FS) (pieces : List Bytes) :
     (fs.run (serializeOps pieces false)).dump = some pieces.flatten ∧ (fs.run (serializeOps pieces false)).tmp = none :=
   ⟨(FS.run_serializeOps_ok fs pieces).1, (FS.run_serializeOps_ok fs pieces).2.1⟩
 
-/-- non-vacuity: an image written in three pieces over an old dump; crash after 3 operations keeps the old dump,
-after all 6 the new one is there -/
+/-- non-vacuity: an image written in three pieces over an old dump, a stale tmp file lying around; crash after 4
+operations keeps the old dump, after all 7 the new one is there -/
 example :
-    let fs : FS := { dump := some [7, 7] }
+    let fs : FS := { dump := some [7, 7], tmp := some [6] }
     let ops := serializeOps [[1], [2, 3], [4]] false
-    ops.length = 6 ∧ (fs.crashAt ops 3).dump = some [7, 7] ∧ (fs.crashAt ops 3).tmp = some [1, 2, 3] ∧
-    (fs.crashAt ops 5).dump = some [7, 7] ∧ (fs.crashAt ops 6).dump = some [1, 2, 3, 4] := by
+    ops.length = 7 ∧ (fs.crashAt ops 1).tmp = none ∧ (fs.crashAt ops 4).dump = some [7, 7] ∧
+    (fs.crashAt ops 4).tmp = some [1, 2, 3] ∧
+    (fs.crashAt ops 6).dump = some [7, 7] ∧ (fs.crashAt ops 7).dump = some [1, 2, 3, 4] := by
   decide
 
 /-- **Incoming transfer: a kill anywhere inside any sequence of `setTransmissionData` calls (accepted, refused,
@@ -252,10 +256,10 @@ theorem capture_is_value_at_call (l : Link) (id : Nat) (pieces : List Bytes) (ev
     (hm : l.snd.mode = .file) (hf : l.snd.fork = true) (hp : l.snd.pid = .idle)
     (hq : ∀ e ∈ evs, e.noNewDump = true) :
     let l' := (l.step (.serialize id pieces false)).run evs
-    (∃ j, j ≤ (serializeOps pieces false).length ∧ l'.snd.fs = l.snd.fs.crashAt (serializeOps pieces false) j) ∧
+    (∃ j, 1 ≤ j ∧ j ≤ (serializeOps pieces false).length ∧ l'.snd.fs = l.snd.fs.crashAt (serializeOps pieces false) j) ∧
     ((l'.snd.child = some ⟨[], true⟩ ∨ l'.snd.child = none) → l'.snd.stored = some pieces.flatten) := by
   intro l'
-  have h0 : ForkInv (serializeOps pieces false) l.snd.fs (l.step (.serialize id pieces false)) := by
+  have h0 : ForkInv (dumpWriteOps pieces false) (l.snd.fs.apply (.remove .tmp)) (l.step (.serialize id pieces false)) := by
     have hs := serialize_fork_hands_ops l.snd id pieces false hm hf hp
     refine ⟨0, by simp, ?_, Or.inl ?_⟩
     · show (Link.noteHeld { l with snd := (l.snd.serialize id pieces false).1 }).snd.fs = _
@@ -263,9 +267,10 @@ theorem capture_is_value_at_call (l : Link) (id : Nat) (pieces : List Bytes) (ev
     · show (Link.noteHeld { l with snd := (l.snd.serialize id pieces false).1 }).snd.child = _
       rw [noteHeld_snd]; simpa using hs.2.1
   obtain ⟨j, hj, hfs, hchild⟩ := fork_run _ _ evs _ hq h0
-  refine ⟨⟨j, hj, hfs⟩, ?_⟩
+  refine ⟨⟨j + 1, by omega, by simp [serializeOps]; omega, ?_⟩, ?_⟩
+  · rw [hfs]; simp [serializeOps, FS.crashAt, FS.run]
   intro hdone
-  have hjl : j = (serializeOps pieces false).length := by
+  have hjl : j = (dumpWriteOps pieces false).length := by
     rcases hchild with hc | ⟨hjl, _⟩
     · rcases hdone with hd | hd
       · rw [hc] at hd
@@ -275,7 +280,7 @@ theorem capture_is_value_at_call (l : Link) (id : Nat) (pieces : List Bytes) (ev
     · exact hjl
   show l'.snd.fs.dump = _
   rw [hfs, hjl, FS.crashAt, List.take_of_length_le (Nat.le_refl _)]
-  exact (FS.run_serializeOps_ok _ _).1
+  exact (FS.run_dumpWriteOps_ok _ _).1
 
 /-- non-vacuity: the parent sends (`None`) and cancels while the child writes; after the child's 4 operations the
 dump is the captured image -/
@@ -393,6 +398,47 @@ example :
     let r3 := (r2.feed [some ⟨[2], false, false⟩, some ⟨[], false, true⟩]).1
     r1.stored = some [7] ∧ r2.stored = some [5, 5] ∧ r2.fs.tmp1 = some [1] ∧ r3.stored = some [5, 5] ∧
     r3.incoming = some [1, 2] ∧ (r3.finishIncoming true).1.stored = some [1, 2] := by
+  decide
+
+-- ------------------------------------------------------------------------------------------------
+-- D84: the dump writer that outlives its node
+-- ------------------------------------------------------------------------------------------------
+
+/-- **After the repair an orphaned dump writer never changes the dump file of a later incarnation.**
+The crash model has the event "parent killed, child continues": `Ser.restart` keeps, in file mode, what is left of the
+fork child's operations as `orphan` — with the repair (`__exitIfOrphan` at the child's start and right before its
+rename) only writes to and the close of the file it holds open.  For every number `n` of further operations of the orphan,
+at any moment of the life of the later incarnation `s`: the dump file is unchanged; and once the later incarnation has
+begun a dump of its own (`serialize` removes the left-over `<dump>.tmp`, so the orphan's file is no longer a named file)
+NOTHING the orphan does reaches any file. -/
+theorem orphan_never_changes_later_dump (s0 : Ser) (h0 : s0.orphanOk) (n : Nat) :
+    let s := s0.restart
+    (s.orphanRun n).stored = s.stored ∧
+    (∀ id pieces fail, s.mode = .file →
+      let s' := (s.serialize id pieces fail).1
+      s'.orphLinked = false ∧ (s'.orphanRun n).fs = s'.fs) := by
+  intro s
+  have hok : s.orphanOk := restart_orphanOk s0 h0
+  refine ⟨(orphanRun_frame n s hok).1, ?_⟩
+  intro id pieces fail hm s'
+  have hp : s.pid = .idle := rfl
+  have hu := serialize_unlinks_orphan s id pieces fail hm hp
+  have hok' : s'.orphanOk := by
+    intro ops hops; rw [hu.2] at hops; exact hok ops hops
+  exact ⟨hu.1, (orphanRun_frame n s' hok').2 hu.1⟩
+
+/-- non-vacuity, the schedule of the witness: P1 forks a writer for `[5,5]`, it opens its file and is killed with two
+writes and the rename still to do; P2 starts, the orphan writes one piece into the shared `<dump>.tmp`; P2 dumps `[8]`
+(its own fork child; the stale tmp is removed first); the orphan's remaining operations change nothing: the dump stays `[8]` -/
+example :
+    let p1 : Ser := { mode := .file, fork := true, batch := 1, fs := { dump := some [3] } }
+    let p1' := (p1.serialize 1 [[5], [5]] false).1.childStep
+    let p2 := p1'.restart
+    let p2a := p2.orphanStep
+    let p2b := ((p2a.serialize 2 [[8]] false).1.childStep.childStep.childStep.childStep.checkSerializing none).1
+    p2.orphan = some [.write .tmp [5], .write .tmp [5], .close .tmp] ∧ p2.orphLinked = true ∧
+    p2a.fs.tmp = some [5] ∧ p2a.stored = some [3] ∧ p2b.stored = some [8] ∧ p2b.orphLinked = false ∧
+    (p2b.orphanRun 5).fs = p2b.fs ∧ (p2b.orphanRun 5).stored = some [8] := by
   decide
 
 end PSO.C09
